@@ -856,6 +856,9 @@ void sim_sleep_us(uint64_t us) {
     cur->timed = false;
 }
 
+static bool rdy_never(SimTask *t) { (void)t; return false; }
+void sim_block_forever(void) { block_on(rdy_never, NULL, "X"); }
+
 /* ---------------- fork / exec / wait ---------------- */
 static char exec_missing[8][32]; static int n_exec_missing;
 void sim_exec_set_missing(const char *b, bool missing) {
